@@ -31,6 +31,9 @@ CONSTANTS N,          \* size of the id space (2^24 in paramiko)
           SkipInUse,  \* TRUE: ids present in the map are skipped (the code); FALSE: mutation
           TimeoutRewindsCounter,   \* FALSE (the code): a local open that times out leaves counter and registry
                       \* alone; TRUE: mutation, it unregisters its id and sets the counter back to it
+          PeerAllocConsumes,       \* TRUE (the code): the number a peer open takes is used up at once, before the
+                      \* application is asked; FALSE: mutation (seeded change C23f), it is only looked up and counts
+                      \* as taken once the channel is registered - a local open during the callback gets the same one
           StrayFailureUnregisters  \* FALSE (the code): CHANNEL_OPEN_FAILURE only affects a local open that is
                       \* still waiting for its answer; TRUE: mutation, it unregisters whatever id it names
 
@@ -64,7 +67,7 @@ With(f, x, v) == [y \in DOMAIN f \cup {x} |-> IF y = x THEN v ELSE f[y]]
 
 \* state updates shared with the trace specification
 AllocBy(who, id)  == /\ pend' = With(pend, who, id)
-                     /\ counter' = Succ(id)
+                     /\ counter' = IF who = "T" /\ ~PeerAllocConsumes THEN id ELSE Succ(id)
 RegisterBy(who, id) == /\ open' = Inc(open, id)
                        /\ map' = map \cup {id}
                        /\ pend' = IF who \in DOMAIN pend THEN Without(pend, who) ELSE pend
